@@ -260,13 +260,21 @@ MOUNT_STUB = "_ZNK3DFS20StorageConfiguration5mountERKNS_14VolumeSelectorE=stub_m
 W_CMDS = "w_cmds.cc"
 W_EXTRACT = "w_extract.cc"
 CMD_UNWIND = [("collect_nums", 200), ("h_cmd_free.0", 200), ("h_cmd_space.0", 200), ("h_cmd_free", 12), ("h_cmd_space", 12), ("X_strlen", 64), ("X_mem", 16), ("vf_ostream3num", 24), ("make_disc", 4), ("cout_num", 200), ("realloc_insert", 6), ("vf_rb", 6), ("Rb_tree", 6), ("vf_s_copy", 33), ("vf_s_set", 33), ("vf_mem", 33), ("vf_string", 42)]
-def ob_cmd_free(pid, entries=2):
-    return X.cxx_ob(pid, "cmd_free.E%d" % entries, W_CMDS, "h_cmd_free", "CommandFree::invoke on an in-memory Acorn DFS drive with a symbolic well-formed catalogue: "
+def ob_cmd_free(pid, entries=2, watford=False):
+    return X.cxx_ob(pid, "cmd_free.%sE%d" % ("W" if watford else "", entries), W_CMDS, "h_cmd_free", "CommandFree::invoke on an in-memory %s drive with a symbolic well-formed catalogue: " % ("Watford DFS (62-file catalogue, second half empty)" if watford else "Acorn DFS") +
                     "prints free/used files, sectors (hex) and bytes with used = max(catalogue sectors, highest file end)",
                     "exactly %d catalogue entries (constant per query) with symbolic start/length (non-overlapping, descending), total sectors 3..800" % entries,
                     ["dfs/cmd_free.cc:CommandFree::invoke", "dfs/storage.cc:StorageConfiguration::mount", "mount_fs", "connect_drives", "dfs/dfs_filesystem.cc:FileSystem::FileSystem",
                      "dfs/dfs_volume.cc:init_volumes", "Volume::Volume", "dfs/dfs_catalog.cc:Catalog::Catalog", "Catalog::entries"],
-                    unwind=8, unwindset=CMD_UNWIND, defines=("NDEBUG", "CMD_ENTRIES=%d" % entries), weight_gb=10, timeout=1500, noop_re=EXC_CTORS, replace=[MOUNT_STUB])
+                    unwind=8, unwindset=CMD_UNWIND, defines=("NDEBUG", "CMD_ENTRIES=%d" % entries) + (("CMD_WATFORD",) if watford else ()), weight_gb=10, timeout=1500, noop_re=EXC_CTORS, replace=[MOUNT_STUB])
+def ob_map_sectors(pid, entries=2):
+    return X.cxx_ob(pid, "map_sectors.E%d" % entries, W_CMDS, "h_map_sectors", "Catalog::map_sectors on the same symbolic catalogue: the catalogue sectors are labelled catalogue, every file with a body "
+                    "owns exactly start .. start+ceil(len/256)-1 (offset by the volume origin), a zero-length file owns nothing",
+                    "exactly %d entries, symbolic start/length, symbolic 16-bit volume origin" % entries,
+                    ["dfs/dfs_catalog.cc:Catalog::map_sectors", "Catalog::entries", "CatalogEntry::last_sector", "Volume::Volume"],
+                    unwind=8, unwindset=CMD_UNWIND + [("h_map_sectors", 12)], defines=("NDEBUG", "CMD_ENTRIES=%d" % entries, "VF_STRMODEL", "VF_STRCAP=40"), weight_gb=6, timeout=900, noop_re=EXC_CTORS,
+                    replace=["_ZN3DFS9SectorMap18add_catalog_sectorEjRKNS_14VolumeSelectorE=stub_add_catalog_sector", "_ZN3DFS9SectorMap16add_file_sectorsEjjRKNS_14ParsedFileNameE=stub_add_file_sectors"],
+                    stubs=["SectorMap::add_catalog_sector / add_file_sectors replaced by recorders (one std::map node per sector otherwise)", STRMODEL_NOTE])
 def ob_cmd_space(pid, entries=2):
     return X.cxx_ob(pid, "cmd_space.E%d" % entries, W_CMDS, "h_cmd_space", "CommandSpace::invoke on the same drive: lists exactly the maximal runs of unallocated sectors in disc order "
                     "and their sum = total - catalogue - file sectors", "<= %d entries as cmd_free" % entries,
@@ -274,10 +282,13 @@ def ob_cmd_space(pid, entries=2):
                     unwind=8, unwindset=CMD_UNWIND, defines=("NDEBUG", "CMD_ENTRIES=%d" % entries), weight_gb=12, timeout=1500,
                     noop_re=EXC_CTORS + [r"^_ZNSt6vectorIjSaIjEE17_M_realloc_insertIJRKjEEE"], replace=[MOUNT_STUB],
                     stubs=["std::vector<unsigned>::_M_realloc_insert replaced by a fixed-capacity model (stubs/vf_stubs.c)"])
+# ob_cmd_free(watford=True) (62-file Watford catalogue) is NOT registered: with two catalogue fragments the entry vectors have symbolic
+# sizes and symbolic execution alone exceeds 1500 s even with no files (DESIGN.md 10); the Watford half of `free` is outside the claim.
 @prop("C14")
 def c14(tier):
     es = (0, 2) if tier == "quick" else (0, 1, 2, 3)
-    return [ob_cmd_free("C14", e) for e in es] + [ob_cmd_space("C14", e) for e in es], dict(assumptions=CXX_ASSUME)
+    return ([ob_cmd_free("C14", e) for e in es] + [ob_cmd_space("C14", e) for e in es]
+            + [ob_map_sectors("C14", e) for e in ((2,) if tier == "quick" else (1, 2, 3))]), dict(assumptions=CXX_ASSUME)
 
 def ob_extract_paths(pid, tag="out", dest="out"):
     return X.cxx_ob(pid, "extract_paths." + tag, W_EXTRACT, "h_extract_paths", "CommandExtractFiles::invoke on an in-memory drive with one catalogued file whose 8 name/directory bytes are arbitrary: "
